@@ -81,8 +81,9 @@ def make_judges(ctx):
         if not snaps or not hasattr(ops[0], 'codes'):
             return
         x = snaps[0]
-        if any(not (1 <= s.n_word <= 12 and 0 <= s.n_frac <= s.n_word) or len(s.codes) > 9 or len(s.shape) == 0 or len(s.shape) > 2 for s in snaps):
-            ctx.skip('red:operand outside the quantifier (n_word<=12, 0<=n_frac<=n_word, up to 3x3 / length 8)')
+        shaped = snaps[:1] if cname == 'clip' else snaps      # (the bounds of clip can be fixed-point scalars)
+        if any(not (1 <= s.n_word <= 12 and -8 <= s.n_frac <= s.n_word + 8) or len(s.codes) > 9 for s in snaps) or any(len(s.shape) == 0 or len(s.shape) > 2 for s in shaped):
+            ctx.skip('red:operand outside the quantifier (n_word<=12, -8<=n_frac<=n_word+8, up to 3x3 / length 8)')
             return
         # exact evaluation
         try:
@@ -93,10 +94,25 @@ def make_judges(ctx):
                 d = dict(zip(names, eargs))
                 d.update(ekw)
                 lo_, hi_ = d.get('a_min'), d.get('a_max')
-                if lo_ is None or hi_ is None or isinstance(lo_, Fxp) or isinstance(hi_, Fxp):
-                    ctx.skip('red:clip without both numeric bounds')
+                if lo_ is None and hi_ is None:
+                    ctx.skip('red:clip without any bound')
                     return
-                exp = np.clip(d['a'], F(lo_), F(hi_))
+
+                def bound(b):
+                    # exact value(s) of a bound: number, list / tuple / array of numbers, fixed-point object (its PRE picture), or missing
+                    if b is None:
+                        return None
+                    if hasattr(b, 'codes'):
+                        return A.fr_array(b) if len(b.shape) else A.fr_array(b).item()
+                    if isinstance(b, (list, tuple, np.ndarray)):
+                        return np.array([F(v) for v in np.asarray(b).ravel().tolist()], dtype=object).reshape(np.asarray(b).shape)
+                    return F(b)
+                blo, bhi = bound(lo_), bound(hi_)
+                exp = d['a']
+                if blo is not None:
+                    exp = np.maximum(exp, blo)
+                if bhi is not None:
+                    exp = np.minimum(exp, bhi)
             else:
                 exp = NPF[name](*eargs, **ekw)
         except Exception as e:
@@ -109,10 +125,14 @@ def make_judges(ctx):
         # result word bound of the quantifier
         if cname in ('prod', 'cumprod'):
             # documented growth: prod multiplies the word by the number of factors along the axis, cumprod by the array size
-            cnt = len(x.codes) if (fkw.get('axis') is None or cname == 'cumprod') else x.shape[fkw['axis']]
+            ax_ = fkw.get('axis')
+            cnt = len(x.codes) if (ax_ is None or cname == 'cumprod') else (int(np.prod([x.shape[a_] for a_ in ax_])) if isinstance(ax_, tuple) else x.shape[ax_])
             if x.n_word * cnt > 53:
                 ctx.skip('red:result word beyond 53 bits')
                 return
+        if cname in ACCUM and ev.result_snap is not None and ev.result_snap.n_word > 53:
+            ctx.skip('red:result word beyond 53 bits')
+            return
         if ev.exc is not None:
             ctx.violation('raises', '%s(%s) via %s raised %s: %s' % (cname, R.dtype_fxp(*x.fmt()), route, type(ev.exc).__name__, str(ev.exc)[:120]), ev, key='red.raises.%s' % cname)
             return
@@ -147,19 +167,33 @@ def make_judges(ctx):
         lo, hi = R.code_range(x.signed, x.n_word)
         cs = set(x.codes)
         ecls = 'all-lo' if cs == {lo} else ('all-hi' if cs == {hi} else ('mixed-ext' if cs <= {lo, hi} else 'random'))
-        axk = 'none' if fkw.get('axis') is None else 'axis%s' % fkw.get('axis')
+        axk = 'none' if fkw.get('axis') is None else 'axis%s' % (fkw.get('axis'),)
+        fcls = G.frac_class(x.n_word, x.n_frac)
+        if cname == 'clip':
+            d_ = dict(zip(('a', 'a_min', 'a_max'), fargs))
+            d_.update(fkw)
+            axk = 'bounds:%s/%s' % tuple('none' if b is None else type(b).__name__ for b in (d_.get('a_min'), d_.get('a_max')))
+            ctx.floor_hit(('clip_bounds', axk.split(':')[1]))
+        if cname == 'transpose' and fkw.get('axes') is not None:
+            axk = 'axes%s' % (tuple(fkw['axes']),)
+            ctx.floor_hit(('transpose_axes',))
+        if fcls in ('<0', '>w'):
+            ctx.floor_hit(('edge_format', cname))
         nontriv = ecls != 'random' or len(x.codes) % 2 == 1 or axk != 'none'
         sample = None
         if ctx.want_sample() and nontriv and cname in ACCUM:
             sample = {'function': cname, 'route': route, 'kwargs': {k: str(v) for k, v in fkw.items()}, 'x': x.describe(), 'result': res.describe()}
-        ctx.judged((cname, route, axk, tuple(x.shape), ecls, ''.join('s' if s.signed else 'u' for s in snaps)), nontriv, sample, elements=len(expf))
+        nontriv = nontriv or fcls in ('<0', '>w')
+        ctx.judged((cname, route, axk, tuple(x.shape), ecls, ''.join('s' if s.signed else 'u' for s in snaps), fcls), nontriv, sample, elements=len(expf))
         ctx.floor_hit((cname, route))
     return [red_judge]
 
 
 def floors(tier):
     cells = [(f, r) for f in ('sum', 'cumsum', 'prod', 'cumprod', 'max', 'min', 'clip', 'transpose', 'diagonal', 'trace', 'dot') for r in ('numpy', 'method')]
-    cells += [('sort', 'numpy'), ('sort', 'method'), ('matmul', 'numpy')]
+    cells += [('sort', 'numpy'), ('sort', 'method'), ('matmul', 'numpy'), ('transpose_axes',)]
+    cells += [('clip_bounds', b) for b in ('float/float', 'ndarray/ndarray', 'list/list', 'Fxp/Fxp', 'float/none', 'none/float')]
+    cells += [('edge_format', f) for f in ('sum', 'cumsum', 'prod', 'cumprod', 'dot', 'clip', 'max', 'sort')]
     return cells
 
 
@@ -189,6 +223,8 @@ def run_case(case, ctx):
     s = bool((i // len(SHAPES)) % 2)
     w = rng.randint(1, 12)
     nf = rng.randint(0, w)
+    if i % 5 == 4:
+        nf = rng.choice([rng.randint(-8, -1), rng.randint(w + 1, w + 8), w - (1 if s else 0) + 1])   # negative fraction / negative integer length
     lo, hi = R.code_range(s, w)
     ecls = ('all-lo', 'all-hi', 'mixed', 'random', 'random')[(i // 20) % 5]
     if ecls == 'all-lo':
@@ -226,8 +262,29 @@ def run_case(case, ctx):
     amin, amax = float(F(a) * R.lsb(nf)), float(F(b) * R.lsb(nf))
     _try(lambda: np.clip(x, amin, amax))
     _try(lambda: x.clip(amin, amax))
+    # bounds given as arrays (twice: the caller's arrays must still hold the bounds), lists, fixed-point objects, or one bound only
+    alo, ahi = np.full(shape, amin), np.full(shape, amax)
+    _try(lambda: np.clip(x, alo, ahi))
+    _try(lambda: np.clip(x, alo, ahi))
+    _try(lambda: x.clip(alo.tolist(), ahi.tolist()))
+    if nf <= w - (1 if s else 0):
+        flo, fhi = _try(lambda: Fxp(a, s, w, nf, raw=True)), _try(lambda: Fxp(b, s, w, nf, raw=True))
+        if flo is not None and fhi is not None:
+            _try(lambda: np.clip(x, flo, fhi))
+            _try(lambda: x.clip(flo, fhi))
+    _try(lambda: np.clip(x, amin, None))
+    _try(lambda: x.clip(a_max=amax))
+    _try(lambda: np.clip(x, None, amax))
     _try(lambda: np.transpose(x))
     _try(lambda: x.transpose())
+    perms = [(0,)] if len(shape) == 1 else [(0, 1), (1, 0)]
+    for pm in perms:
+        _try(lambda: np.transpose(x, axes=pm))
+        _try(lambda: x.transpose(axes=pm))
+    if len(shape) == 2 and w * size <= 53:
+        _try(lambda: np.prod(x, axis=(0, 1)))
+        _try(lambda: x.prod(axis=(1, 0)))
+        _try(lambda: np.sum(x, axis=(0, 1)))
     if len(shape) == 2:
         for off in (0, 1, -1):
             if (off >= 0 and off < shape[1]) or (off < 0 and -off < shape[0]):
@@ -240,7 +297,7 @@ def run_case(case, ctx):
     # dot / matmul with mixed signedness
     s2 = bool(rng.random() < 0.5)
     w2 = rng.randint(1, 12)
-    nf2 = rng.randint(0, w2)
+    nf2 = rng.randint(0, w2) if i % 5 != 4 else rng.randint(-8, w2 + 8)
     lo2, hi2 = R.code_range(s2, w2)
     if len(shape) == 1:
         shp2 = shape
